@@ -86,6 +86,21 @@ size_t HashBBdh::getSize() {
   return mem;
 }
 
+void HashBBdh::save(std::ostream &fp) {
+  // The table is rebuilt from the offsets bitmap
+  LogSequence *seq = new LogSequence(hashbits, tsize);
+
+  for (size_t i = 1; i <= n; i++)
+    seq->setField(b_ht->select1(i), offsets->select1(i));
+
+  saveValue(fp, tsize);
+  saveValue(fp, n);
+  seq->save(fp);
+  b_ht->save(fp);
+
+  delete seq;
+}
+
 HashBBdh *HashBBdh::load(std::istream &fp) {
   HashBBdh *h_new = new HashBBdh();
 
@@ -112,8 +127,11 @@ HashBBdh *HashBBdh::load(std::istream &fp) {
                   true);
   h_new->offsets = new BitSequenceRRR(*offsets);
 
+  h_new->hashbits = h_new->hash->getNumbits();
+
   delete offsets;
   delete h_new->hash;
+  h_new->hash = NULL;
 
   return h_new;
 }
